@@ -234,6 +234,25 @@ HAND = [
     "function h20(x) { var r = 0; while (x) { if (x) { r = (x, 1); } else { r = 1; } } return r; }",
     "template H21() { signal input a; signal output o; if (a == 1) { assert((a, a)); } else { o <== a; } }",
     "template H14() { signal input a; Z()(a); _ <== V()(a, a); (_, _) <== V()(a, a); }",
+    # named inputs written in another order than the template declares them, with different operators (seeded C18 m3)
+    "template H22() { signal input a; signal output o; signal output p; (o, p) <== V()(a <-- a + 1, b <== a); }",
+    "template H23() { signal input a; signal output o; signal output p; (o, p) <== V()(a <== a, b <-- a * a * a); }",
+    # tuples nested three levels deep, literally and through an anonymous component with two outputs (seeded C18 m4)
+    "template H24() { signal input a; signal output o; signal output p; signal output q; ((o, (_, p)), q) <-- ((a, (a, a * a)), a); }",
+    "template H25() { signal input a; signal output o; signal output p; signal output q; ((o, p, _), q) <== ((a, V()(a, a)), a); }",
+    "template H26() { signal input a; signal output o; signal output p; signal output q; (o, p, q) <== ((a, (a, a)), a); }",
+]
+
+# (sugared, hand-written expansion): the findings must coincide (component names normalised)
+HAND_PAIRS = [
+    ("template HP0() { signal input x; signal input y; signal output u; signal output v; (u, v) <== V()(a <-- x * x * x, b <== y); }",
+     "template HP0() { signal input x; signal input y; signal output u; signal output v; component hc1; hc1 = V(); hc1.b <== y; hc1.a <-- x * x * x; u <== hc1.o1; v <== hc1.o2; }"),
+    ("template HP1() { signal input x; signal input y; signal output u; signal output v; (u, v) <== V()(a <== y, b <-- x * x * x); }",
+     "template HP1() { signal input x; signal input y; signal output u; signal output v; component hc1; hc1 = V(); hc1.b <-- x * x * x; hc1.a <== y; u <== hc1.o1; v <== hc1.o2; }"),
+    ("template HP2() { signal input x; signal input y; signal input z; signal output u; signal output v; signal output w; ((u, v, _), w) <== ((x, V()(y, z)), z); }",
+     "template HP2() { signal input x; signal input y; signal input z; signal output u; signal output v; signal output w; component hc1; hc1 = V(); hc1.b <== y; hc1.a <== z; u <== x; v <== hc1.o1; w <== z; }"),
+    ("template HP3() { signal input x; signal input y; signal input z; signal output s; signal output t; ((s, (_, t)), _) <-- ((x, (y, z * z)), z); }",
+     "template HP3() { signal input x; signal input y; signal input z; signal output s; signal output t; s <-- x; t <-- z * z; }"),
 ]
 
 
@@ -285,6 +304,9 @@ def run(ctx):
                 for h in HAND:
                     nm = re.search(r"(?:template|function)\s+(\w+)", h).group(1)
                     defs.append((nm, h, None))
+                for sug, hand in HAND_PAIRS:
+                    nm = re.search(r"(?:template|function)\s+(\w+)", sug).group(1)
+                    defs.append((nm, sug, hand))
             else:
                 for j in range(per_file):
                     g = G(ctx.rng, fidx * 100 + j)
